@@ -284,6 +284,10 @@ class Driver:
         return out
 
     def _cmd(self, text):
+        if not isinstance(text, str):
+            # only command strings may be queued, held back or handed to the transport: anything else is projected as an
+            # unparsable command (the trace is then judged by the specification, the projector does not fall over)
+            text = "~~not-a-string:" + type(text).__name__
         canon, hdr, payload = ref_parse_cmd(text)
         if hdr is None:
             return [-99999, -99999, -99999, -99999, -99999, self.tok(text)]
@@ -374,9 +378,28 @@ class Driver:
 
     # ------------------------------------------------------------ events
     def _emit_event(self, ev, raised, with_disk=False):
+        try:
+            return self._emit_event_inner(ev, raised, with_disk)
+        except Exception as exc:  # pylint: disable=broad-except
+            # The library's state has a shape the projector cannot read (on the unchanged code this never happens): the
+            # event is recorded as unobservable and the specification rejects the trace there, instead of the check dying.
+            del self.tr.log[:]
+            del self.cb_log[:]
+            del self.wire[:]
+            bad = {"a": ev.get("a", "?"), "unobservable": True, "why": f"{type(exc).__name__}: {exc}"[:200], "out": [], "cb": [],
+                   "exc": "none", "raised": False, "alive": self.alive, "hasdisk": False, "haswire": False, "linkup": True, "wire": [],
+                   "outp": [], "rawout": [], "st": {"tree": [], "trans": [], "sess": [], "fw": [], "jobs": [], "metric": True, "dirty": True},
+                   "disk": {"file": False, "tree": []}}
+            for k, v in ev.items():
+                bad.setdefault(k, v)
+            self.events.append(bad)
+            return bad
+
+    def _emit_event_inner(self, ev, raised, with_disk=False):
+        ev["unobservable"] = False
         ev["out"] = [self._cmd(x) for x in self.tr.log]
         ev["rawout"] = list(self.tr.log)
-        ev["outp"] = [describe(ref_parse_cmd(x)[2], self.I) for x in self.tr.log]
+        ev["outp"] = [describe(ref_parse_cmd(x)[2] if isinstance(x, str) else "", self.I) for x in self.tr.log]
         post_tree = json.dumps(self._tree(), sort_keys=True)
         ev["cb"] = [f + [1 if seen == post_tree else 0] for f, seen in self.cb_log]
         ev["haswire"] = self.real_link
